@@ -330,7 +330,7 @@ func c01DirectScenario(cs c01Direct) *mc.Scenario {
 }
 
 func runC01(c *Ctx) {
-	pb := c.Pick(2, 3)
+	pb := c.Pick(3, 4)
 	opt := mc.Options{PreemptBound: pb, DevBound: 0}
 	for _, kind := range []string{"simple", "precise"} {
 		cases := []c01Case{
